@@ -84,7 +84,31 @@ def harmless_table():
     return '\n'.join(rows)
 
 
-TABLES = {'coverage': coverage_table, 'seeded': seeded_table, 'harmless': harmless_table}
+def assumed_table():
+    """sidecar contracts that no check verifies against the function's body (they are assumptions wherever they are used)"""
+    sys.path.insert(0, VERIF)
+    import importlib
+    allc = {}
+    for m in ('engine_terms', 'engine_heap', 'generator_body', 'generator_clause', 'visitor', 'visitor_parse', 'ast_vars'):
+        mod = importlib.import_module('contracts.' + m)
+        for n, c in mod.C.items():
+            allc.setdefault(n, []).append((m, c))
+    verified, used = set(), {}
+    for i in range(1, 21):
+        e = json.load(open(os.path.join(VERIF, 'evidence', 'C%02d.json' % i)))['coverage']
+        verified |= {f['name'] for f in e.get('functions_under_contract', []) if f.get('obligations') and not f.get('error')}
+        for n in e.get('callee_contracts_relied_on_but_not_verified_in_this_check', []):
+            used.setdefault(n, []).append('C%02d' % i)
+    rows = ['| contract | relied on by | note |', '|---|---|---|']
+    for n in sorted(allc):
+        if n in verified:
+            continue
+        note = '; '.join(c.notes for _, c in allc[n] if getattr(c, 'notes', ''))[:160]
+        rows.append('| `%s` | %s | %s |' % (short(n), ' '.join(sorted(set(used.get(n, [])))) or '-', note.replace('|', '\\|')))
+    return '\n'.join(rows)
+
+
+TABLES = {'assumed': assumed_table, 'coverage': coverage_table, 'seeded': seeded_table, 'harmless': harmless_table}
 
 
 def main():
